@@ -607,11 +607,10 @@ def gen_cases(tier):
         add(3, None, two, ov3)
         add(3, None, ['random_draw'], [mixed3, ['release'] * 3])
         add(3, None, two, [mixed3, ['release'] * 3, ['hold'] * 3], late=2)
-        add(3, ['n-1_equal'], two, [mixed3], cancel=0)
+        add(3, ['n-1_equal', 'pairwise'], two, [['hold', 'release', 'release']], cancel=0)
         add(3, ['n-1_equal', 'n_equal', 'pairwise'], two, [['hold'] * 3, ['release'] * 3], cancel=0)
         add(3, ['n-1_equal'], two, [['release'] * 3], cancel=0, late=2)
         add(4, None, four, [['release'] * 4, ['hold'] * 4])
-        add(4, ['n-1_equal'], two, [['bcast_fail'] * 4])
         add(4, ['n-1_equal', 'pairwise'], two, [mixed4])
         add(4, ['n-1_equal', 'pairwise'], two, [['release'] * 4], late=3)
         add(4, ['n-1_equal'], two, [['release'] * 4], cancel=0)
@@ -745,8 +744,13 @@ def explore_case(case, res, cross_check=False):
 
 
 def work(item, res):
+    import time
+    t0 = time.process_time()
     for case in item:
         explore_case(case, res, cross_check=case.get('cross_check', False))
+    dt = time.process_time() - t0
+    res.setmax('max_pool_item_cpu_s', round(dt, 1))
+    res.count('cpu_seconds', int(round(dt)))
 
 
 def run(ctx):
@@ -755,11 +759,18 @@ def run(ctx):
     for c in cases:
         c['perm'] = ctx.seed
     def weight(c):
-        w = {2: 1, 3: 3, 4: 8, 6: 10, 12: 40}[c['n']]
+        """Rough cost estimate (cpu-seconds) used only to order and group the pool items."""
+        w = {2: 0.3, 3: 0.5, 4: 0.8, 6: 1.5, 12: 6.0}[c['n']]
+        kinds = len(set(c['outcomes']))
+        w *= {1: 1, 2: 6, 3: 12}.get(kinds, 12)
+        if c['outcomes'].count('bcast_fail') >= 2:
+            w *= 3
         if c['cancel'] is not None:
-            w *= 25
+            w *= 25 if c['n'] <= 4 else 3
         if c['late'] is not None:
             w *= 8
+        if c['bound'] == 2:
+            w *= 6
         if c['cross_check']:
             w *= 8
         return w
@@ -767,12 +778,12 @@ def run(ctx):
     items, cur, cur_w = [], [], 0
     for c in cases:
         w = weight(c)
-        if w >= 60:
+        if w >= 4:
             items.append([c])
             continue
         cur.append(c)
         cur_w += w
-        if cur_w >= 60:
+        if cur_w >= 4:
             items.append(cur)
             cur, cur_w = [], 0
     if cur:
